@@ -67,7 +67,9 @@ theorem asContiguous_leaf {a : Loc} (h : Loc.isContig a = true) :
 
 /-! ### the body: one step of the recursion -/
 
-/-- two contiguous leaves: the `switch` at the end of `LocationLess` is `contigLess` -/
+set_option linter.unusedSimpArgs false in
+/-- two contiguous leaves: the `switch` at the end of `LocationLess` is `contigLess` (`lok && rok` —
+or `lok || rok`: both hold here) -/
 theorem locationLessBody_leaf (self_ : Loc → Loc → Bool) {a b : Loc}
     (ha : Loc.isContig a = true) (hb : Loc.isContig b = true) :
     Gen.locationLessBody self_ a b = Loc.contigLess a b := by
@@ -75,7 +77,7 @@ theorem locationLessBody_leaf (self_ : Loc → Loc → Bool) {a b : Loc}
     (try cases ‹Bool›) <;> (try cases ‹Bool›) <;> (try cases ‹Bool›) <;> (try cases ‹Bool›) <;>
     simp only [Gen.locationLessBody, Gen.asLocationSlice, Gen.asContiguous, Gen.asRanged, Gen.betweenSpan,
       Gen.pointSpan, Gen.rangedSpan, Gen.ambiguousSpan, rangeCompare_eq, Loc.contigLess, Loc.span?,
-      Loc.partialCount, and_self, if_true] <;>
+      Loc.partialCount, and_self, or_self, if_true] <;>
     (split <;> simp)
 
 /-- a complement around `b` is stripped (when `a` is not a complement) -/
